@@ -616,6 +616,7 @@ func (c *Ctx) chainLacksKey(ch cbChain, key string) (bool, string) {
 // ------------------------------------------------------------------ VD9
 
 func ruleVD9(c *Ctx) {
+	c.resultPathIsUTF8()
 	isEpic, vrs, vrp, cre := c.anchor("isEpic"), c.anchor("validateResultSummary"), c.anchor("validateResultPath"), c.anchor("captureResultEvidence")
 	if isEpic == nil || vrs == nil || vrp == nil || cre == nil {
 		return
